@@ -16,6 +16,12 @@ package main
 // array ops:  ap,E  aa,L  in,i,E  rm,i  rf  rl  gt,i  st,i,E  sl,a,b  rv  cc,L  fl,k  mp,k  ct,E  fi,E  ln
 //             tc,n (toConstantSized<[T; n]>)  tv (toVariableSized)   SL,a,b RV CC,L FL,k (c = c.slice(…) …; mode M)
 // dict ops:   di,K,V  dr,K  dg,K  ds,K,V  dn,K  dk  dv  dc,K  df  de,j  it  ln
+// both:       im,<outer>,<nest>,<when>,<mutation op>   an iteration over c with a mutation of c:
+//             outer f (`for x in c`) | m (`c.map`, arrays) | k (`c.forEachKey`, dictionaries);
+//             nest 0 none | 1 a nested `for y in c {}` that ends before the mutation | 2 a nested c.filter /
+//             c.forEachKey that ends before it | 3 the mutation sits inside a nested `for y in c`;
+//             when <j> inside the body at outer step j | a after the loop | b<j> `break` at step j, mutation after the loop;
+//             mutation op: ap,E in,i,E rm,i rf rl st,i,E | di,K,V dr,K ds,K,V dn,K.   Logs "<steps>/<length>".
 // Every op logs exactly one line, and every transaction ends with a dump `log(c)`.
 
 import (
@@ -138,6 +144,83 @@ func contMapFn(t string, k string) (resType, body string) {
 
 const contFixN = 4
 
+// the statement of a mutation op (fields f), without a log
+func contMutStmt(et, kt, vt string, f []string) string {
+	switch f[0] {
+	case "ap":
+		return fmt.Sprintf("c.append(%s)", contElem(et, f[1]))
+	case "in":
+		return fmt.Sprintf("c.insert(at: %s, %s)", f[1], contElem(et, f[2]))
+	case "rm":
+		return fmt.Sprintf("c.remove(at: %s)", f[1])
+	case "rf":
+		return "c.removeFirst()"
+	case "rl":
+		return "c.removeLast()"
+	case "st":
+		return fmt.Sprintf("c[%s] = %s", f[1], contElem(et, f[2]))
+	case "di":
+		return fmt.Sprintf("c.insert(key: %s, %s)", contElem(kt, f[1]), contElem(vt, f[2]))
+	case "dr":
+		return fmt.Sprintf("c.remove(key: %s)", contElem(kt, f[1]))
+	case "ds":
+		return fmt.Sprintf("c[%s] = %s", contElem(kt, f[1]), contElem(vt, f[2]))
+	case "dn":
+		return fmt.Sprintf("c[%s] = nil", contElem(kt, f[1]))
+	}
+	return "BAD MUTATION"
+}
+
+// an iteration over c with a mutation of c (op `im`, see the header); k makes the local names unique
+func contIterSource(b *strings.Builder, k int, isDict bool, et, kt, vt string, f []string) {
+	outer, nest, when := f[1], f[2], f[3]
+	mut := contMutStmt(et, kt, vt, f[4:])
+	elemT := contTypeSyntax(et)
+	if isDict {
+		elemT = contTypeSyntax(kt)
+	}
+	n := fmt.Sprintf("n%d", k)
+	inside, after := "", ""
+	switch {
+	case when == "a":
+		after = mut
+	case strings.HasPrefix(when, "b"):
+		inside = fmt.Sprintf("if %s == %s { break }", n, when[1:])
+		after = mut
+	default:
+		inside = fmt.Sprintf("if %s == %s { %s }", n, when, mut)
+	}
+	nested := ""
+	switch nest {
+	case "1":
+		nested = fmt.Sprintf("for y%d in c { }", k)
+	case "2":
+		if isDict {
+			nested = fmt.Sprintf("c.forEachKey(fun (q: %s): Bool { return true })", elemT)
+		} else {
+			nested = fmt.Sprintf("let t%d = c.filter(view fun (q: %s): Bool { return true })", k, elemT)
+		}
+	case "3":
+		nested = fmt.Sprintf("for y%d in c { %s }", k, inside)
+		inside = ""
+	}
+	fmt.Fprintf(b, "  var %s = 0\n", n)
+	switch outer {
+	case "f":
+		fmt.Fprintf(b, "  for x%d in c {\n   %s\n   %s\n   %s = %s + 1\n  }\n", k, nested, inside, n, n)
+	case "m":
+		fmt.Fprintf(b, "  let u%d = c.map(fun (p: %s): Int {\n   %s\n   %s\n   %s = %s + 1\n   return 0\n  })\n", k, elemT, nested, inside, n, n)
+	case "k":
+		fmt.Fprintf(b, "  c.forEachKey(fun (p: %s): Bool {\n   %s\n   %s\n   %s = %s + 1\n   return true\n  })\n", elemT, nested, inside, n, n)
+	default:
+		b.WriteString("  BAD OUTER\n")
+	}
+	if after != "" {
+		fmt.Fprintf(b, "  %s\n", after)
+	}
+	fmt.Fprintf(b, "  log(%s.toString().concat(\"/\").concat(c.length.toString()))\n", n)
+}
+
 func contTxSource(shape string, tx string) string {
 	sh := strings.Split(shape, ":")
 	mode := tx[:1]
@@ -235,6 +318,12 @@ func contTxSource(shape string, tx string) string {
 				k, contTypeSyntax(kt), k, k, k, f[1], k)
 		case "it":
 			fmt.Fprintf(&b, "  let i%d: [%s] = []\n  for k in c { i%d.append(k) }\n  log(i%d)\n", k, contTypeSyntax(kt), k, k)
+		case "im":
+			if len(f) < 5 {
+				b.WriteString("  BAD OP\n")
+				break
+			}
+			contIterSource(&b, k, sh[0] == "dict", et, kt, vt, f)
 		default:
 			b.WriteString("  BAD OP\n")
 		}
@@ -345,6 +434,8 @@ func contErrKind(out *cdc.Outcome) string {
 	switch out.Kind {
 	case "interpreter.ArrayIndexOutOfBoundsError", "interpreter.ArraySliceIndicesError", "interpreter.InvalidSliceIndexError":
 		return "index"
+	case "interpreter.ContainerMutatedDuringIterationError":
+		return "mutation"
 	}
 	return out.Class + ":" + out.Kind
 }
@@ -638,9 +729,142 @@ func (g *contGen) arrOp(mode string, fix bool, phase int) string {
 				n = []int{0, 1, g.n + 1, 3}[r.Intn(4)]
 			}
 			return fmt.Sprintf("tc,%d", n)
+		case x < 97:
+			return g.iterOp(mode, fix)
 		default:
 			continue
 		}
+	}
+}
+
+// one in-place mutation of the array; with track the generator's length / abort bookkeeping is updated
+func (g *contGen) arrMut(fix bool, track bool) string {
+	r := g.r
+	et := g.shape[1]
+	n0, ab0 := g.n, g.aborted
+	defer func() {
+		if !track {
+			g.n, g.aborted = n0, ab0
+		}
+	}()
+	if fix {
+		return fmt.Sprintf("st,%d,%s", g.index(contFixN-1, 3), contRandElem(r, et))
+	}
+	for {
+		switch r.Intn(6) {
+		case 0:
+			g.n++
+			return "ap," + contRandElem(r, et)
+		case 1:
+			i := g.index(g.n, 3)
+			if i >= 0 && i <= g.n {
+				g.n++
+			}
+			return fmt.Sprintf("in,%d,%s", i, contRandElem(r, et))
+		case 2:
+			if g.n == 0 {
+				g.aborted = true
+			}
+			i := g.index(g.n-1, 3)
+			if i >= 0 && i < g.n {
+				g.n--
+			}
+			return fmt.Sprintf("rm,%d", i)
+		case 3:
+			if g.n == 0 {
+				g.aborted = true
+			} else {
+				g.n--
+			}
+			return r.Pick([]string{"rf", "rl"})
+		default:
+			if g.n == 0 {
+				continue
+			}
+			return fmt.Sprintf("st,%d,%s", g.index(g.n-1, 3), contRandElem(r, et))
+		}
+	}
+}
+
+func (g *contGen) dictMut(track bool) string {
+	r := g.r
+	vt := g.shape[2]
+	k := g.key()
+	switch r.Intn(4) {
+	case 0:
+		if track {
+			g.keys[k] = true
+		}
+		return fmt.Sprintf("di,%s,%s", k, contRandElem(r, vt))
+	case 1:
+		if track {
+			g.keys[k] = true
+		}
+		return fmt.Sprintf("ds,%s,%s", k, contRandElem(r, vt))
+	case 2:
+		if track {
+			delete(g.keys, k)
+		}
+		return "dr," + k
+	default:
+		if track {
+			delete(g.keys, k)
+		}
+		return "dn," + k
+	}
+}
+
+// an iteration over the container with a mutation of it inside the body (the transaction aborts when the
+// step is reached), after the loop, or after a break
+func (g *contGen) iterOp(mode string, fix bool) string {
+	r := g.r
+	isDict := g.shape[0] == "dict"
+	size := g.n
+	if isDict {
+		size = len(g.keys)
+	}
+	simple := isDict || g.shape[1] == "I" || g.shape[1] == "S"
+	outer := "f"
+	if r.Bool() {
+		if isDict {
+			outer = "k"
+		} else if mode == "M" || simple {
+			outer = "m"
+		}
+	}
+	nest := r.Intn(4)
+	if nest == 2 && !isDict && mode == "R" && !simple {
+		nest = 1
+	}
+	x := r.Intn(100)
+	inside := x < 45
+	if nest == 3 && !inside {
+		nest = 1
+	}
+	if outer != "f" && x >= 75 { // no break in a callback
+		x = 50
+	}
+	mut := func(track bool) string {
+		if isDict {
+			return g.dictMut(track)
+		}
+		return g.arrMut(fix, track)
+	}
+	switch {
+	case x < 30 && size > 0: // reached: mutation error
+		j := r.Intn(size)
+		if r.Chance(30) {
+			j = size - 1
+		}
+		m := mut(false)
+		g.aborted = true
+		return fmt.Sprintf("im,%s,%d,%d,%s", outer, nest, j, m)
+	case x < 45: // not reached
+		return fmt.Sprintf("im,%s,%d,%d,%s", outer, nest, size+r.Intn(3), mut(false))
+	case x < 75:
+		return fmt.Sprintf("im,%s,%d,a,%s", outer, nest, mut(true))
+	default:
+		return fmt.Sprintf("im,%s,%d,b%d,%s", outer, nest, r.Intn(size+2), mut(true))
 	}
 }
 
@@ -701,14 +925,87 @@ func (g *contGen) dictOp(mode string, phase int) string {
 		return fmt.Sprintf("de,%d", 1+r.Intn(len(g.keys)+2))
 	case x < 94:
 		return "it"
+	case x < 97:
+		return g.iterOp(mode, false)
 	default:
 		return "ln"
+	}
+}
+
+// directed: every kind of iteration x nesting x mutation with the mutation inside a reached step (each in a
+// transaction of its own: all abort with the mutation error and leave the container as it was), then the
+// same with the step not reached, and mutations after the loop / after a break
+func genContIterDirected(emit func(shape, h string)) {
+	type sh struct {
+		shape, setup string
+		muts         []string
+		after        []string // mutations applied after the loop, in this order (all valid)
+	}
+	arrMuts := func(e1, e2 string) []string {
+		return []string{"ap," + e1, "in,99," + e2, "in,0," + e1, "rm,0", "rm,99", "rf", "rl", "st,0," + e2, "st,99," + e1}
+	}
+	arrAfter := func(e1, e2 string) []string {
+		return []string{"ap," + e1, "rl", "in,1," + e2, "rm,0", "st,0," + e1, "rf"}
+	}
+	shapes := []sh{
+		{"arr:I", "M:aa,1+2+3", arrMuts("4", "5"), arrAfter("4", "5")},
+		{"arr:S", "M:aa,a1+b600+c3", arrMuts("d2", "e700"), arrAfter("d2", "e700")},
+		{"arr:A", "M:aa,1.2+e+3", arrMuts("4.5", "e"), arrAfter("4.5", "e")},
+		{"arr:P", "M:aa,1_a1+2_b2+3_c3", arrMuts("4_d1", "5_e0"), arrAfter("4_d1", "5_e0")},
+		{"fix:I", "M:st,0,1", []string{"st,0,5", "st,3,6", "st,4,7", "st,-1,7"}, []string{"st,1,8", "st,3,9"}},
+		{"dict:I:I", "M:di,1,10;di,2,20;di,3,30", []string{"di,4,40", "di,1,11", "dr,9", "dr,2", "ds,5,50", "ds,3,31", "dn,1", "dn,9"},
+			[]string{"di,4,40", "dr,2", "ds,3,31", "dn,1", "dn,9"}},
+		{"dict:S:P", "M:di,a1,1_a1;di,b2,2_b2;di,c3,3_c3", []string{"di,d4,4_d1", "dr,b2", "ds,a1,9_z1", "dn,c3", "dn,q1"},
+			[]string{"di,d4,4_d1", "dr,b2", "ds,a1,9_z1", "dn,q1"}},
+	}
+	for _, s := range shapes {
+		isDict := strings.HasPrefix(s.shape, "dict")
+		et := strings.Split(s.shape, ":")[1]
+		simple := isDict || et == "I" || et == "S"
+		outers := []string{"f", "m"}
+		if isDict {
+			outers = []string{"f", "k"}
+		}
+		for _, mode := range []string{"M", "R"} {
+			txs := []string{s.setup}
+			var notReached, after []string
+			ai := 0
+			for _, o := range outers {
+				if o == "m" && mode == "R" && !simple {
+					continue
+				}
+				for nest := 0; nest < 4; nest++ {
+					if nest == 2 && !isDict && mode == "R" && !simple {
+						continue
+					}
+					for mi, m := range s.muts {
+						txs = append(txs, fmt.Sprintf("%s:im,%s,%d,%d,%s", mode, o, nest, (mi+nest)%3, m))
+						notReached = append(notReached, fmt.Sprintf("im,%s,%d,%d,%s", o, nest, 4+mi%3, m))
+					}
+					if nest < 3 {
+						after = append(after, fmt.Sprintf("im,%s,%d,a,%s", o, nest, s.after[ai%len(s.after)]))
+						ai++
+						if o == "f" {
+							after = append(after, fmt.Sprintf("im,%s,%d,b%d,%s", o, nest, ai%3, s.after[ai%len(s.after)]))
+							ai++
+						}
+					}
+				}
+			}
+			txs = append(txs, mode+":"+strings.Join(notReached, ";")+";ln")
+			txs = append(txs, mode+":"+strings.Join(after, ";")+";ln")
+			emit(s.shape, strings.Join(txs, "|"))
+		}
 	}
 }
 
 func genCont(c *hx.Ctx) {
 	r := c.Rng
 	shapes := []string{"arr:I", "arr:S", "arr:A", "arr:P", "fix:I", "fix:S", "dict:I:I", "dict:S:I", "dict:I:S", "dict:I:A", "dict:S:P", "dict:I:P"}
+	genContIterDirected(func(shape, h string) {
+		c.Emit("cont", "interp", shape, h)
+		c.Emit("cont", "vm", shape, h)
+	})
 	for i := 0; i < c.N; i++ {
 		shape := shapes[i%len(shapes)]
 		if i >= len(shapes) {
